@@ -161,6 +161,9 @@ fn real_main() {
                 continue;
             }
         };
+        if symrt::truncated() {
+            writeln!(out, "{{\"case\":\"{}\",\"error\":\"NOT-ENCODABLE: path budget exceeded (only the first {} paths are decided)\"}}", esc(&case.id), paths.len()).unwrap();
+        }
         let trace_ms = t0.elapsed().as_millis();
         let mut n_obl = 0usize;
         for (pi, path) in paths.iter().enumerate() {
